@@ -79,6 +79,10 @@ class UserError(Exception):
     pass
 
 
+class CallbackRefused(Exception):
+    """raised by the simulated application's own onStateChanged hook (not by a replicated method)"""
+
+
 class AwkwardError(Exception):
     """a user exception that does not survive a pickle round trip (its constructor needs an argument that
     Exception.__reduce__ does not record): anything that stores exception OBJECTS in replicated state trips over it"""
@@ -356,6 +360,14 @@ class Sim(object):
                     self.now = self.now + self.cfg['period'] + 1.0
         return self.now
 
+    def _state_changed(self, nid, old, new):
+        """conf.onStateChanged.  cfg['state_cb_raises'] = nodes whose callback raises when they stop being leader (a hook
+        that publishes the role somewhere that is unavailable just then): what the application's callback does must not
+        change what the node IS"""
+        self.roles.append((nid, old, new))
+        if nid in self.cfg.get('state_cb_raises', ()) and old == 2 and new != 2:
+            raise CallbackRefused('role hook of node %d is unavailable' % nid)
+
     def conf_for(self, nid):
         c = self.cfg
         kw = dict(autoTick=False, appendEntriesPeriod=float(c['period']), raftMinTimeout=float(c['tmin']),
@@ -365,7 +377,7 @@ class Sim(object):
                   appendEntriesUseBatch=c.get('use_batch', True), dynamicMembershipChange=c.get('dyn', False),
                   logCompactionMinEntries=c.get('min_entries', 10 ** 9), logCompactionMinTime=float(c.get('min_time', 10 ** 9)),
                   commandsQueueSize=c.get('queue', 1000), commandsWaitLeader=c.get('wait_leader', True),
-                  useFork=bool(c.get('fork')), onStateChanged=lambda o, n, nid=nid: self.roles.append((nid, o, n)))
+                  useFork=bool(c.get('fork')), onStateChanged=lambda o, n, nid=nid: self._state_changed(nid, o, n))
         if c.get('custom') and nid < RO_BASE:
             # user-supplied serializer functions: the application stores its own state next to the Raft data
             def ser(fileName, data, nid=nid):
